@@ -103,7 +103,9 @@ def run(ctx, run, units, trusted, floor_subs, floor_cur=0, skip_debug=True):
                                    "offset_interval": list(v.iv)})
         if touched:
             run.touch(f)
-    run.floor("sized-array subscripts in %s" % ", ".join(u.split("/")[-1] for u in units), n_s, floor_subs)
+    # subscripts and cursor dereferences together: rewriting an index loop with a pointer cursor moves sites from one
+    # count to the other
+    run.floor("sized-array subscripts and cursor dereferences in %s" % ", ".join(u.split("/")[-1] for u in units), n_s + n_c, floor_subs)
     if floor_cur:
         run.floor("cursor dereferences in %s" % ", ".join(u.split("/")[-1] for u in units), n_c, floor_cur)
     if n_und:
